@@ -24,6 +24,15 @@ PRELUDE = r'''
 #include "nmtools/array/view/stack.hpp"
 #include "nmtools/array/index/tile.hpp"
 #include "nmtools/array/index/broadcast_shape.hpp"
+#include "nmtools/array/index/atleast_nd.hpp"
+#include "nmtools/array/index/squeeze.hpp"
+#include "nmtools/array/index/transpose.hpp"
+#include "nmtools/array/index/pad.hpp"
+#include "nmtools/array/index/repeat.hpp"
+#include "nmtools/array/index/concatenate.hpp"
+#include "nmtools/array/index/outer.hpp"
+#include "nmtools/array/index/compute_strides.hpp"
+#include "nmtools/array/index/reshape.hpp"
 #include "nmtools/utility/isequal.hpp"
 #include "nmtools/utility/cast.hpp"
 #include "nmtools/utl.hpp"
@@ -39,6 +48,11 @@ using dyn2_a   = na::ndarray_t<nmtools_list<float>, nmtools_array<size_t,2>>;   
 using c13_a    = na::ndarray_t<nmtools_array<float,3>, nmtools_tuple<meta::ct<1>,meta::ct<3>>>;     // constant shape (1,3): axis 0 stretches
 using c23_a    = fixed_a;
 template <class T> T& lv();
+using clip13 = nmtools_tuple<nm::clipped_size_t<1>,nm::clipped_size_t<3>>;
+using clip3 = nmtools_tuple<nm::clipped_size_t<3>>;
+// the bounds a (clipped) result TYPE carries, compared with a value
+template <class R, class V> constexpr bool bounds_are(const V& v) { return nm::utils::isequal(meta::to_value_v<R>, v); }
+template <size_t... V> constexpr auto szs(){ return nmtools_array<size_t,sizeof...(V)>{V...}; }
 using i23_a = na::ndarray_t<nmtools_array<int,6>, nmtools_array<size_t,2>>;       // int elements, run-time (2-d) shape
 using d23_a = na::ndarray_t<nmtools_array<double,6>, nmtools_array<size_t,2>>;    // double elements
 using b23_a = na::ndarray_t<nmtools_array<bool,6>, nmtools_array<size_t,2>>;
@@ -180,3 +194,25 @@ WITNESSES += [
  W("c09_bshape_cap_bounded_fixed", "C09", "pass", "broadcast_shape(shape bounded by 4, fixed shape of 2): the result can hold 4 extents",
    "void f(nmtools_array<size_t,2>& a, nm::utl::static_vector<size_t,4>& b){ using R = meta::get_maybe_type_t<decltype(nm::index::broadcast_shape(b, a))>; static_assert(meta::bounded_size_v<R> >= 4 || meta::len_v<R> >= 4); }"),
 ]
+
+# ---------------- C11 / C09: for a shape that is only BOUNDED (tuple of clipped integers) the bounds carried by the result TYPE of an index
+#                  function are what the run-time function returns on the bounds themselves, extent by extent, in the right positions
+def _bound_witnesses():
+    out = []
+    def bw(id, why, args, expr, want):
+        out.append(W("c11_bounds_" + id, "C11", "pass", why,
+            "void f(%s){ using R = meta::remove_cvref_t<decltype(%s)>; static_assert(bounds_are<R>(szs<%s>())); }" % (args, expr, want)))
+    bw("atleast_3d", "shape_atleast_nd of a shape bounded by (2,3), nd=3: bounds (1,2,3)", "clip_shape& s", "nm::index::shape_atleast_nd(s, 3_ct)", "1,2,3")
+    bw("atleast_4d", "shape_atleast_nd of a shape bounded by (2,3), nd=4: bounds (1,1,2,3)", "clip_shape& s", "nm::index::shape_atleast_nd(s, 4_ct)", "1,1,2,3")
+    bw("atleast_2d_noop", "shape_atleast_nd of a shape bounded by (2,3), nd=2: bounds (2,3)", "clip_shape& s", "nm::index::shape_atleast_nd(s, 2_ct)", "2,3")
+    bw("squeeze", "shape_squeeze of a shape bounded by (1,3): bounds (3)", "clip13& s", "nm::index::shape_squeeze(s)", "3")
+    bw("transpose", "shape_transpose (default axes) of a shape bounded by (2,3): bounds (3,2)", "clip_shape& s", "nm::index::shape_transpose(s, nm::None)", "3,2")
+    bw("repeat_axis1", "shape_repeat(bounded (2,3), 2, axis 1): bounds (2,6)", "clip_shape& s", "nm::unwrap(nm::index::shape_repeat(s, 2_ct, 1_ct))", "2,6")
+    bw("broadcast", "broadcast_shape(bounded (2,3), bounded (3)): bounds (2,3)", "clip_shape& s, clip3& t", "nm::unwrap(nm::index::broadcast_shape(s, t))", "2,3")
+    bw("pad", "shape_pad(bounded (2,3), widths (1,0,1,2)): bounds (4,5)", "clip_shape& s", "nm::unwrap(nm::index::shape_pad(s, nmtools_tuple{1_ct,0_ct,1_ct,2_ct}))", "4,5")
+    bw("outer", "shape_outer(bounded (2,3), bounded (3)): bounds (2,3,3)", "clip_shape& s, clip3& t", "nm::unwrap(nm::index::shape_outer(s, t))", "2,3,3")
+    bw("strides", "compute_strides of a shape bounded by (2,3): bounds (3,1)", "clip_shape& s", "nm::unwrap(nm::index::compute_strides(s))", "3,1")
+    bw("reshape", "shape_reshape(bounded (2,3), (3,2)): bounds (3,2)", "clip_shape& s", "nm::unwrap(nm::index::shape_reshape(s, nmtools_tuple{3_ct,2_ct}))", "3,2")
+    bw("concatenate", "shape_concatenate(bounded (2,3), bounded (2,3), axis 0): bounds (4,3)", "clip_shape& s", "nm::get<1>(nm::index::shape_concatenate(s, s, 0_ct))", "4,3")
+    return out
+WITNESSES += _bound_witnesses()
